@@ -862,14 +862,81 @@ Inductive mop :=
 | MRoots (h : N)              (* trie.Hash of the three tries *)
 | MCopy (h h' : N)            (* h' := h.Copy() *)
 | MReopen (h h' : N)          (* h' := state.New(roots of h's last Commit) *)
+| MReopenAt (h k h' : N)      (* h' := state.New(roots of h's k-th Commit) *)
 | MReader (h : N)             (* NewVldReader(valRoot of h's last Commit); shows its view *)
 | MView (h : N).
+
+(* cachingDB.pastTries: the last maxPastTries tries handed to cachedTrie.Commit.  An
+   entry is the LIVE trie object of the committing StateDB (handle, which of its three
+   tries), newest first; OpenTrie returns a copy of the first entry that HASHES to the
+   requested root, else reads the trie database. *)
+Definition max_past_tries : nat := 12.
 
 Record machine := mkM {
   m_db : database;
   m_hs : list (N * statedb);
   m_last : list (N * (rhash * rhash * rhash));
-  m_seen : list rhash * list rhash * list rhash   (* roots shown so far, for numbering *) }.
+  m_seen : list rhash * list rhash * list rhash;  (* roots shown so far, for numbering *)
+  m_hist : list (N * list (rhash * rhash * rhash)); (* every Commit of a handle, oldest first *)
+  m_cache : list (N * N) }.
+
+Fixpoint cache_acct (hs : list (N * statedb)) (c : list (N * N)) (r : rhash) : option (list (N * acct)) :=
+  match c with
+  | [] => None
+  | (h, k) :: rest =>
+    match (if N.eqb k 0 then find hs h else None) with
+    | Some s => if rheqb (aroot (ac_trie (s_acc s))) r then Some (ac_trie (s_acc s)) else cache_acct hs rest r
+    | None => cache_acct hs rest r
+    end
+  end.
+Fixpoint cache_val (hs : list (N * statedb)) (c : list (N * N)) (r : rhash) : option vtrie :=
+  match c with
+  | [] => None
+  | (h, k) :: rest =>
+    match (if N.eqb k 1 then find hs h else None) with
+    | Some s => if rheqb (vroot (vl_trie (s_val s))) r then Some (vl_trie (s_val s)) else cache_val hs rest r
+    | None => cache_val hs rest r
+    end
+  end.
+Fixpoint cache_stk (hs : list (N * statedb)) (c : list (N * N)) (r : rhash) : option strie :=
+  match c with
+  | [] => None
+  | (h, k) :: rest =>
+    match (if N.eqb k 2 then find hs h else None) with
+    | Some s => if rheqb (sroot (sk_trie (s_stk s))) r then Some (sk_trie (s_stk s)) else cache_stk hs rest r
+    | None => cache_stk hs rest r
+    end
+  end.
+(* cachingDB.OpenTrie *)
+Definition mopen_acct (m : machine) (r : rhash) :=
+  match cache_acct (m_hs m) (m_cache m) r with Some t => Some t | None => open_acct (m_db m) r end.
+Definition mopen_val (m : machine) (r : rhash) :=
+  match cache_val (m_hs m) (m_cache m) r with Some t => Some t | None => open_val (m_db m) r end.
+Definition mopen_stk (m : machine) (r : rhash) :=
+  match cache_stk (m_hs m) (m_cache m) r with Some t => Some t | None => open_stk (m_db m) r end.
+
+(* the part of state.New after the three tries are open *)
+Definition tries_state (ta : list (N * acct)) (tv : vtrie) (ts : strie) : option statedb :=
+  match (match vt_index tv with Some l => dec_idx (enc_idx l) | None => Some [] end),
+        (match vt_stat tv with Some x => dec_stat (enc_stat x) | None => Some new_stat end),
+        (match st_prel ts with Some l => dec_prel (enc_prel l) | None => Some [] end) with
+  | Some ix, Some st, Some pr =>
+    Some (mkSt (mkAccs ta [] [] [] [])
+               (mkVals tv [] [] [] (fold_left sins ix []) st false None)
+               (mkStks ts [] [] pr false))
+  | _, _, _ => None
+  end.
+(* state.New / NewVldReader through the trie cache *)
+Definition mnew_state (m : machine) (ra rv rs : rhash) : option statedb :=
+  match mopen_acct m ra, mopen_val m rv, mopen_stk m rs with
+  | Some ta, Some tv, Some ts => tries_state ta tv ts
+  | _, _, _ => None
+  end.
+Definition mnew_reader (m : machine) (rv : rhash) : option vals :=
+  match mopen_val m rv with
+  | Some tv => option_map s_val (tries_state [] tv st_empty)
+  | None => None
+  end.
 
 Fixpoint rindex (l : list rhash) (r : rhash) (i : N) : option N :=
   match l with [] => None | x :: t => if rheqb x r then Some i else rindex t r (i + 1) end.
@@ -881,9 +948,21 @@ Definition show_roots (m : machine) (r : rhash * rhash * rhash) : machine * obs 
   let '(sa1, ia) := intern sa ra in
   let '(sv1, iv) := intern sv rv in
   let '(ss1, is_) := intern ss rs in
-  (mkM (m_db m) (m_hs m) (m_last m) (sa1, sv1, ss1), onums [ia; iv; is_]).
+  (mkM (m_db m) (m_hs m) (m_last m) (sa1, sv1, ss1) (m_hist m) (m_cache m), onums [ia; iv; is_]).
 Definition set_h (m : machine) (h : N) (s : statedb) : machine :=
-  mkM (m_db m) (ins (m_hs m) h s) (m_last m) (m_seen m).
+  mkM (m_db m) (ins (m_hs m) h s) (m_last m) (m_seen m) (m_hist m) (m_cache m).
+(* pushTrie for the account, validator and staking trie, in the order Commit commits them *)
+Definition push_tries (h : N) (c : list (N * N)) : list (N * N) :=
+  firstn max_past_tries ((h, 2) :: (h, 1) :: (h, 0) :: c).
+Definition reopen_from (m : machine) (r : option (rhash * rhash * rhash)) (h' : N) : machine * obs :=
+  match r with
+  | None => (m, OL [])
+  | Some (ra, rv, rs) =>
+    match mnew_state m ra rv rs with
+    | Some s => (set_h m h' s, OL [ON 1])
+    | None => (m, OL [ON 0])
+    end
+  end.
 
 Definition mstep (f : copy_flags) (u : universe) (m : machine) (o : mop) : machine * obs :=
   match o with
@@ -901,7 +980,9 @@ Definition mstep (f : copy_flags) (u : universe) (m : machine) (o : mop) : machi
     match find (m_hs m) h with
     | None => (m, OL [])
     | Some s => let '(d1, s1) := commit (m_db m) de s in
-                show_roots (mkM d1 (ins (m_hs m) h s1) (ins (m_last m) h (roots s1)) (m_seen m)) (roots s1)
+                show_roots (mkM d1 (ins (m_hs m) h s1) (ins (m_last m) h (roots s1)) (m_seen m)
+                                (ins (m_hist m) h (match find (m_hist m) h with Some l => l | None => [] end ++ [roots s1]))
+                                (push_tries h (m_cache m))) (roots s1)
     end
   | MRoots h =>
     match find (m_hs m) h with
@@ -913,20 +994,14 @@ Definition mstep (f : copy_flags) (u : universe) (m : machine) (o : mop) : machi
     | None => (m, OL [])
     | Some s => let '(s0, s1) := copy f s in (set_h (set_h m h s0) h' s1, OL [])
     end
-  | MReopen h h' =>
-    match find (m_last m) h with
-    | None => (m, OL [])
-    | Some (ra, rv, rs) =>
-      match new_state (m_db m) ra rv rs with
-      | Some s => (set_h m h' s, OL [ON 1])
-      | None => (m, OL [ON 0])
-      end
-    end
+  | MReopen h h' => reopen_from m (find (m_last m) h) h'
+  | MReopenAt h k h' =>
+    reopen_from m (match find (m_hist m) h with Some l => nth_error l (N.to_nat k) | None => None end) h'
   | MReader h =>
     match find (m_last m) h with
     | None => (m, OL [])
     | Some (_, rv, _) =>
-      match new_reader (m_db m) rv with
+      match mnew_reader m rv with
       | Some s => (m, reader_view u s)
       | None => (m, OL [ON 0])
       end
@@ -1036,7 +1111,7 @@ Definition init_machine : machine :=
   mkM db_empty
       (match new_state db_empty (aroot []) (vroot vt_empty) (sroot st_empty) with
        | Some s => [(0, s)] | None => [] end)
-      [] ([], [], []).
+      [] ([], [], []) [] [].
 
 (* one case: which copy code the tree has, the addresses observed, the calls,
    and what the implementation showed for each call *)
